@@ -7,6 +7,7 @@
 import Qfx.Lemmas.CodecScan
 import Qfx.Lemmas.CodecOps
 import Qfx.Lemmas.CodecParseD
+import Qfx.Lemmas.CodecAnyDict
 open Qfx Qfx.Spec
 
 /-- "tag order list vs tag lookup map: two views of the same field set that must stay in step" —
@@ -257,6 +258,35 @@ theorem C10_parse_build_dict_nogroups (fx : Fixes) (d : Dicts) (hng : ∀ t, NoG
       · rw [hbytes]; exact parse_wire_D fx tv t9 t35 pre t10 hwm hbl (fun tv _ => hng tv.tag) (hng 10) hh10
       · rw [hbytes]; rfl
 
+/-- "PARSING THOSE BYTES YIELDS THE SAME FIELDS AND VALUES", ANY DICTIONARIES (the corrected `C10_parse_build_full`): for every message
+    built by proper, SOH-free operations with BeginString and MsgType set, `ParseMessage` with ANY dictionaries `d` — application
+    dictionaries that define repeating groups included, transport dictionaries, user-defined tags — succeeds on the bytes of `build`,
+    `Message.fields` is exactly the written TagValue list and `Bytes()` returns the bytes. -/
+theorem C10_parse_build_anydict (d : Dicts)
+    (ops : List MOp) (hp : ∀ op ∈ ops, op.proper ∧ op.wire) (m : Message)
+    (hrun : runMOps ops Message.new = .ok m)
+    (h8 : (alFind m.header.lookup 8).isSome = true) (h35 : (alFind m.header.lookup 35).isSome = true)
+    (bytes : Bytes) (m' : Message) (hbuild : m.build Fixes.cur = .ok (bytes, m')) (hsmall : bytes.length < 9223372036854775808) :
+    ∃ (L : List TagValue) (p : Message), bytes = wireOf L ∧ parseMessage Fixes.cur d bytes = .ok p ∧ p.fields = L ∧
+      p.bytes Fixes.cur = .ok (bytes, p) := by
+  obtain ⟨hb, hw⟩ := runMOps_wired ops _ m Built.new Wired.new hp hrun
+  cases hf8 : alFind m.header.lookup 8 with
+  | none => rw [hf8] at h8; cases h8
+  | some f8 =>
+    cases hf35 : alFind m.header.lookup 35 with
+    | none => rw [hf35] at h35; cases h35
+    | some f35 =>
+      obtain ⟨l, hl⟩ := hb.ph.owned 8 f8 hf8
+      subst hl
+      obtain ⟨tv, rest, hl, ht⟩ := hb.ph.head 8 l hf8
+      subst hl
+      have hone := (hb.ph.special 8 _ hf8 tv (by simp) (Or.inl ht)).1
+      rw [hone] at hf8
+      obtain ⟨t9, t35, pre, t10, hbytes, hwm, hbl⟩ := build_wire m hb hw tv f35 hf8 hf35 bytes m' hbuild hsmall
+      obtain ⟨c', hparse⟩ := parse_wire_anydict (d := d) tv t9 t35 pre t10 hwm hbl
+      refine ⟨tv :: t9 :: t35 :: (pre ++ [t10]), _, hbytes, by rw [hbytes]; exact hparse, rfl, ?_⟩
+      rw [hbytes]; rfl
+
 /-- THE MONITOR'S OWN PREDICATE.  The independent tag=value scanner of `Qfx.Spec.Codec` (the one the monitor runs on the
     implementation's output) reads every built message back as exactly the list of TagValues that was written, and its
     well-formedness predicate `wireWF` — 8, 9, 35 first; a single 10, last; no further 8 / 9; BodyLength = bytes between the
@@ -333,18 +363,22 @@ theorem C10_api_total_parsed (d : Dicts) (w : Bytes) (p : Message) (hp : parseMe
 theorem C10_write_total (t : Tag) (tmpl : List Item) (es : List (List GFld)) :
     ∃ tvs, writeGroup t tmpl es = .ok (countTV t es.length :: tvs) := writeGroup_total t tmpl es
 
-/-! ## not (yet) theorems: kept as full statements, checked on every run by the monitor (Qfx.Spec.monBuild) and the correspondence -/
+/-! ## what is NOT a theorem here
 
-/-- the whole monitor (scanner-level clauses RELATIVE TO THE ABSTRACT MESSAGE `a` that the operations describe: each set
-    field once with its latest value, section membership) — `wireWF` and the scan are theorems (C10_build_scans_wf), the
-    refinement between `Abs` and the model's maps is not -/
+* "parsing those bytes yields the same fields and values" used to stand here as `C10_parse_build_full : ∀ m bytes m', m.build … = ok … → ∃ p,
+  parseMessage … Dicts.none bytes = ok p ∧ …` for an ARBITRARY model message `m` — false as written (a message without BeginString /
+  MsgType, or with SOH inside a value, builds but does not re-parse) and restricted to `Dicts.none`.  The corrected statements are theorems:
+  `C10_parse_build` (no dictionary, any `Fixes`), `C10_parse_build_dict_nogroups`, and `C10_parse_build_anydict` (ANY dictionaries).
+* the whole monitor `Spec.monBuild` RELATIVE TO THE ABSTRACT MESSAGE `a : Abs` that the monitor keeps while it watches the operations: -/
+
+/-- as it stands this relates an arbitrary `a` to an arbitrary `m` (no hypothesis says that `a` abstracts `m`), so it is not a meaningful
+    proposition about the code; the meaningful version needs the refinement "`a` is what the operations that produced `m` describe" and, for
+    the clause `once_each`, that `Write`'s output equals the monitor's own canonical flattening `Spec.flatEntries` of a group instance.
+    Not done.  What IS proved about the bytes of `build`: `C10_build_wf` (framing, BodyLength, CheckSum), `C10_build_scans_wf` (the monitor's
+    scanner reads back exactly the written TagValues and `wireWF` holds), `C10_write_each_once` / `C10_set_latest` / `C10_remove_gone`
+    (each set field once, latest value, no removed field — at section level), `C10_header_first3`, `C10_trailer_checksum_last`. -/
 def C10_build_wf_full : Prop :=
   ∀ (a : Abs) (m : Message) (bytes : Bytes) (m' : Message), m.build Fixes.cur = .ok (bytes, m') → monBuild a bytes = []
-
-/-- parsing the bytes of a built message yields the same fields and values -/
-def C10_parse_build_full : Prop :=
-  ∀ (m : Message) (bytes : Bytes) (m' : Message), m.build Fixes.cur = .ok (bytes, m') →
-    ∃ p, parseMessage Fixes.cur Dicts.none bytes = .ok p ∧ p.fields.map (·.bytes) = ((scanFields bytes).getD []).map (·.raw)
 
 /-! non-vacuity: a reachable non-trivial state -/
 example : ∃ m, runFOps [.set (TagValue.init 58 [97]), .remove 58, .set (TagValue.init 58 [98]), .setGroup 453 [TagValue.zero]]
@@ -360,6 +394,6 @@ example : ∃ m, runFOps [.set (TagValue.init 58 [97]), .remove 58, .set (TagVal
    "Parsing those bytes yields the same fields and values"         C10_parse_build (no dictionary), C10_parse_build_dict_nogroups (dictionaries without groups); monitor clauses reparse_ok / reparse_same_fields for all modes
    "a copied message serialises identically to its source"         C10_copy_identical (message level), C10_copy_writes_same,
                                                                    C10_copy_length_total_same (section level, also parsed sources)
-   scanner-level well-formedness of the whole output               C10_build_scans_wf (wireWF, scan = written fields); relative to Abs: C10_build_wf_full
+   scanner-level well-formedness of the whole output               C10_build_scans_wf (wireWF, scan = written fields); relative to the monitor's Abs: C10_build_wf_full (def, see there)
    op-order independence ("whatever API calls produced them")      C10_write_history_independent
    every API call sequence succeeds (no error, no fault)           C10_api_total, C10_api_total_parsed, C10_write_total -/
